@@ -55,6 +55,13 @@ def st_case(draw, scheme):
     pool = draw(st.integers(4, 12 if scheme == "CGKO06.SSE2" else 30))
     share_all = draw(st.booleans())
     shape = []
+    if scheme in ("CJJ14.PiBas", "CT14.Pi", "ANSS16.Scheme3") and draw(st.integers(0, 5)) == 0:
+        # exactly 256 postings: one setup performs a whole multiple of 256 encryptions (IV sources that cycle stay aligned)
+        pool = 64
+        per = draw(st.sampled_from([32, 64]))
+        for k in range(256 // per):
+            shape.append([(k * 7 + j) % 64 for j in range(per)])
+        nkw = 0
     for _ in range(nkw):
         n = draw(st.integers(1, min(12, pool)))
         idx = draw(st.lists(st.integers(0, pool - 1), min_size=n, max_size=n, unique=True))
